@@ -441,6 +441,23 @@ class AnnRef:
 
 
 # ------------------------------------------------------------------ the type oracle (independent of validators)
+TRUST_DEFAULTS = [False]     # judging a *payload*: a field holding the class's declared default object is taken on trust
+
+
+def _is_declared_default(cls: Any, name: str, val: Any) -> bool:
+    if hasattr(cls, "_field_defaults"):
+        return name in cls._field_defaults and cls._field_defaults[name] is val
+    f = getattr(cls, "__dataclass_fields__", {}).get(name)
+    if f is None:
+        return False
+    if f.default is not dataclasses.MISSING:
+        return f.default is val
+    if f.default_factory is not dataclasses.MISSING:      # a fresh object per instance: what the factory makes
+        made = f.default_factory()
+        return type(made) is type(val) and made == val
+    return False
+
+
 def is_value(a, x: Any, b: Built, extra_ok: bool = False) -> bool:
     """extra_ok: a TypedDict value may carry undeclared keys (the structural reading used for strictness)."""
     if extra_ok:
@@ -483,7 +500,8 @@ def is_value(a, x: Any, b: Built, extra_ok: bool = False) -> bool:
                 all(k in x for k, f in decl.items() if f.b)
         if type(x) is not cls:
             return False
-        return all(is_value(p.b.a, getattr(x, to_py(p.a, ct)), b) for p in a[3])
+        return all(is_value(p.b.a, getattr(x, to_py(p.a, ct)), b) or
+                   (TRUST_DEFAULTS[0] and _is_declared_default(cls, to_py(p.a, ct), getattr(x, to_py(p.a, ct)))) for p in a[3])
     if c == "AClass":
         return type(x) is ct.classes[a[1].k]
     raise HarnessError(f"is_value {a!r}")
@@ -672,8 +690,23 @@ def oracle(c: TCase) -> Optional[dict]:
         return {"signature": f"C07:raised:{classify_exc(c.exc)}", "what": f"the derived validator raised {c.exc!r}"}
     b = c.b
     if type(c.raw) is Valid:
-        if not uses_annotated(c.a) and not is_value(c.a, c.raw.val, b):
+        TRUST_DEFAULTS[0] = True       # "a declared default is then used as is, on trust"
+        try:
+            sound = uses_annotated(c.a) or is_value(c.a, c.raw.val, b)
+        finally:
+            TRUST_DEFAULTS[0] = False
+        if not sound:
             return {"signature": "C07:unsound", "what": f"Valid({c.raw.val!r}) is not a value of the annotated type"}
+    if c.tag == "untyped-default":
+        # "keys with defaults ... may be absent (a declared default is then used as is, on trust)"
+        rec_a, x0, got0 = (c.a, c.px, c.raw) if c.a[0] == "ARecord" else (c.a[1], c.px[0], c.raw)
+        if type(x0) is dict and type(x0.get("name")) is str and "extra" not in x0:
+            cls = b.ct.classes[rec_a[2].k]
+            val = got0.val if type(got0) is Valid else None
+            inst = val if c.a[0] == "ARecord" else (val[0] if type(val) is list and len(val) == 1 else None)
+            if type(inst) is not cls or not _is_declared_default(cls, "extra", getattr(inst, "extra", None)):
+                return {"signature": "C07:default-not-on-trust",
+                        "what": f"{x0!r} omits the defaulted field 'extra' of {cls.__name__}: expected an instance holding the declared default as it is, got {c.raw!r:.300}"}
     if c.typed:
         if type(c.raw) is not Valid:
             if uses_annotated(c.a):
@@ -894,6 +927,17 @@ def record_cases(rng: random.Random) -> List[TCase]:
             for wrap_a, wrap_x in ((lambda t: t, lambda v: v), (lambda t: ("AList", t), lambda v: ("VList", [v]))):
                 for sig in (False, True):
                     out.append(TCase(classes, wrap_a(a), wrap_x(x), sig, "records"))
+    # declared defaults are used as they are, on trust - also when they would not pass their own field's validator
+    # (None for an int, a str for a date, a list for a tuple): a mapping that omits the key is accepted
+    for kind, rk in (("named", "RkNamed"), ("data", "RkData")):
+        for fa, dflt in ((sc("KInt"), ("VNone",)), (sc("KDate"), S("2020-01-02")), (("ATupleU", sc("KStr")), ("VList", [])), (sc("KStr"), I(0))):
+            fields = [("name", sc("KStr"), None, True), ("extra", fa, dflt, False)]
+            classes = base + [{"kind": kind, "fields": fields, "total": True, "hashable": False}]
+            cid = len(base)
+            a = ("ARecord", (rk,), N(cid), [P(S(n), P(t, r)) for (n, t, _d, r) in fields])
+            for x in (("VDict", [P(S("name"), S("bob"))]), ("VDict", [P(S("name"), S("bob")), P(S("extra"), dflt)]), ("VDict", [])):
+                for wrap_a, wrap_x in ((lambda t: t, lambda v: v), (lambda t: ("AList", t), lambda v: ("VList", [v]))):
+                    out.append(TCase(classes, wrap_a(a), wrap_x(x), False, "untyped-default"))
     # an instance of a subclass (same fields, and with a field of its own) is not a value of the annotated
     # dataclass under the exact-type reading - bare, as a field of another dataclass, in a list, under Optional
     fields = [("x", sc("KInt"), None, True), ("y", sc("KInt"), None, True)]
@@ -1012,7 +1056,7 @@ def run(tier: str, rng: random.Random, proof_ok: bool) -> dict:
             body.append(f"  chk_eq {4 * i + 1}%nat (has_type {coq(c.a)} {coq(c.x_seen)}) {coq(c.typed)}.\n")
             body.append(f"  chk {4 * i + 2}%nat {env} Sync 80%nat {coq(c.b.vterm)} {coq(c.x_seen)} {coq(c.obs)}.\n")
             # the soundness theorem's premise holds of every generated annotation without user validators
-            body.append(f"  chk_eq {4 * i + 3}%nat (okann {env} {coq(c.a)}) {coq(not uses_annotated(c.a))}.\n")
+            body.append(f"  chk_eq {4 * i + 3}%nat (okann {env} {coq(c.a)}) {coq(not uses_annotated(c.a) and c.tag != 'untyped-default')}.\n")
             # is the case inside the fragment of the completeness theorem of its resolution mode (and of its identity clause)?
             frag = f"cplain {env} {coq(c.a)}" if c.sig else f"dplain {env} {coq(c.a)}"
             ident = "true" if c.sig else f"dident {coq(c.a)}"
